@@ -34,6 +34,10 @@ class PcWorld:
         self.fetch_plan, self.deploy_plan = {}, {}
         self.received = {}
         self.cut_happened = set()
+        # session commands the transport adds around the per-file work (empty for most drivers)
+        self.driver_before = ch.pick([[], [], ["sudo -i"]], "driver-before")
+        self.driver_after = ch.pick([[], [], ["sync"]], "driver-after")
+        self.driver_exit = ch.pick([[], [], ["exit"]], "driver-exit")
         ngens = 1 + ch.draw(5, "ngens")
         # priorities are pairwise distinct but otherwise arbitrary integers: zero, negative, around the class default (100)
         prios = ch.sample([-7, -1, 0, 1, 2, 10, 50, 99, 101, 150, 1000], ngens, "prios")
@@ -369,7 +373,12 @@ class Engine:
                 continue
             force = flag == "force"
             want_files = {p: new[p].encode() for p in new if old.get(p) != new[p] or force}
-            want_cmds = {p: reload[p].encode() for p in want_files} if flag != "no" else {}
+            tail = "\n".join(world.driver_after + world.driver_exit)
+            # reload command only when reloads are enabled; the transport's own closing commands run in any case
+            if flag != "no":
+                want_cmds = {p: (reload[p] + ("\n" + tail if tail else "")).encode() for p in want_files}
+            else:
+                want_cmds = {p: tail.encode() for p in want_files} if tail else {}
             got_files = got["files"] if got else {}
             got_cmds = got["cmds"] if got else {}
             entry["uploaded"] = sorted(got_files)
@@ -396,7 +405,7 @@ class Engine:
                     continue
                 if p in want_cmds and p not in got_cmds:
                     return V("reload-command-missing", "reload-missing", step=step, path=p, reload=flag)
-                if p not in want_cmds:
+                if p not in want_cmds or (flag == "no" and got_cmds[p] != want_cmds[p]):
                     return V("reload-sent-although-disabled", "reload-when-no", step=step, path=p, reload=flag,
                              got=got_cmds[p].decode())
                 if got_cmds[p] != want_cmds[p]:
